@@ -496,6 +496,11 @@ func init() {
 				c.P["ffsingle"] = int64(j % 2)
 				cs = append(cs, c)
 			}
+			// the recorded history of the known finding (a reset node gives a late event
+			// a lower round), kept in every tier and at every seed: thorough seed 1 case 51
+			cs = append(cs, CaseSpec{Kind: "history",
+				P: map[string]int64{"badger": 0, "ffresets": 1, "ffsingle": 1, "fsjoin": 1, "joins": 2, "n": 4, "steps": 350, "pin_seed": 1, "pin_index": 51},
+				S: map[string]string{"shape": "lag", "pin_tier": "thorough"}})
 			return cs
 		},
 		Run: func(cs CaseSpec) *CaseResult {
